@@ -285,11 +285,19 @@ def install_formatter(S: Seams, fmt):
 
     if kind in ("black", "raises"):
         always = set(fmt.get("at", [])) if kind == "raises" else set()
+        frag_at = set(fmt.get("fragments_at", [])) if kind == "raises" else set()
+        frag_calls = [0]
 
         def format_str(src, *, mode):
             k = S.fmt_calls
             S.fmt_calls += 1
             act = S.event("fmt_black", f"call{k}")
+            if frag_at and "simlib" not in src:
+                # a fragment (one generated value), not a whole file (every generated file imports simlib): black chokes on some of them only
+                fk = frag_calls[0]
+                frag_calls[0] += 1
+                if fk in frag_at:
+                    raise RuntimeError("injected: black failed for this fragment")
             if act == "fmt_raise" or k in always or fmt.get("always"):
                 raise RuntimeError("injected: black failed")
             if act == "fmt_black_truncated":
